@@ -41,6 +41,76 @@ CHECKS = {
                     "deletion modes with arbitrary bottom-up subsets."),
         level_note="Bounded by program length and mesh size; the renumbering rule is the documented one.",
     ),
+    "C03": dict(
+        kind="rc_program", target="t_kernel", level="exploration",
+        quick=dict(workers=16, max_success=10000, max_size=100, len_scale=0.7, timeout=600),
+        thorough=dict(workers=16, max_success=100000, max_size=100, len_scale=2.0, timeout=3600),
+        rule=("cases = random kernel histories (as C01/C02) interleaved with creation of shared/private/persistent "
+              "properties of int/bool/double/string/Vec3d on all seven entity kinds, random writes and handle drops; "
+              "after every primitive every live property must have one element per entity slot and every surviving "
+              "entity (per side for half-entities) its value from a uid-keyed value model, new entities the default; "
+              "vertex positions likewise. non-trivial = a renumbering op (swap, immediate deletion, garbage collection) "
+              "executed while >=2 live properties of different types incl. bool with >=1 written value exist on an "
+              "affected kind; distinct = distinct program hash"),
+        assumptions=["cases whose topology does not match the reference model are discarded (counted as discarded_prereq_*)"],
+        technique="rapidcheck stateful histories + uid-keyed property value model checked after every step",
+        level_text=("Model-based: property values are tracked per entity identity (uid) independent of handles and "
+                    "compared after every step of random histories in all deletion modes; covers bool specialisation, "
+                    "half-entity sides, defaults of new slots, clear(), positions."),
+        level_note="Tet edge collapse is covered by the C15 target; attribs are thin wrappers over these properties.",
+    ),
+    "C04": dict(
+        kind="rc_program", target="t_kernel", level="exploration",
+        quick=dict(workers=16, max_success=8000, max_size=100, len_scale=0.7, timeout=600),
+        thorough=dict(workers=16, max_success=80000, max_size=100, len_scale=2.0, timeout=3600),
+        rule=("cases = random histories with deferred deletions and StatusAttrib deleted-marks, ending in / containing "
+              "collect_garbage(), enable_deferred_deletion(false) and StatusAttrib::garbage_collection (both overloads, "
+              "manifoldness flag on/off, random live/pending/invalid handles handed in for tracking), fast on/off, any "
+              "bottom-up subset, live properties. Oracle: afterwards no pending deletions, mesh == logical model "
+              "(closure of marks, manifoldness removals) under the predicted renumbering, property values by uid, "
+              "tracked handles == image of their entity or invalid, incidences consistent. non-trivial = a collection "
+              "with pending work in >=2 entity kinds not at the array end (and, with tracking, a tracked survivor and a "
+              "tracked removed handle); distinct = distinct program hash"),
+        assumptions=["the reference model applies deletions immediately, so equality with it is the differential "
+                     "'same deletions performed immediately'"],
+        technique="rapidcheck stateful histories + reference model of logical mesh, tracked-handle oracle",
+        level_text=("Model-based test of all three garbage-collection entry points against the logical (not-deleted) "
+                    "mesh incl. handle tracking and the manifoldness option."),
+        level_note="Bounded by program length and mesh size.",
+    ),
+    "C12": dict(
+        kind="rc_program", target="t_kernel", level="exploration",
+        quick=dict(workers=16, max_success=1200, max_size=100, len_scale=0.6, timeout=600),
+        thorough=dict(workers=16, max_success=15000, max_size=100, len_scale=2.0, timeout=3600),
+        rule=("cases = random histories run on two meshes: a twin with all bottom-up incidences always enabled and the "
+              "mesh under test whose three incidence kinds are toggled at arbitrary points; both are compared with the "
+              "same reference model (definitions, counts, flags, property values) after every primitive, the C01 "
+              "brute-force oracle runs on the enabled kinds (hence right after every re-enable), and every circulator "
+              "needing a disabled kind must be immediately invalid. A failure also shown by the twin is discarded. "
+              "non-trivial = a deletion/swap/garbage collection executed while a kind is disabled, followed by "
+              "re-enabling that kind; distinct = distinct program hash"),
+        assumptions=["upward queries / lookups are only issued while their kind is enabled"],
+        technique="rapidcheck differential (all-enabled twin vs toggled mesh) + model + brute-force incidence oracle",
+        level_text=("Differential/model-based test over all 8 bottom-up subsets toggled mid-history in all deletion "
+                    "modes under ASan/UBSan with asserts on."),
+        level_note="Bounded by program length and mesh size.",
+    ),
+    "C17": dict(
+        kind="rc_program", target="t_kernel", level="exploration",
+        quick=dict(workers=16, max_success=4000, max_size=100, len_scale=0.6, timeout=600),
+        thorough=dict(workers=16, max_success=40000, max_size=100, len_scale=2.0, timeout=3600),
+        rule=("cases = random histories; every swap_*_indices op is executed three times: the handle-exact raw snapshot "
+              "(is_deleted flags, live definitions, base incidence lists, raw arrays of all live properties incl. "
+              "deleted slots, positions) after the first swap must equal the snapshot before with the two handles "
+              "(and their half-entities side by side) exchanged everywhere, the second swap must restore the exact "
+              "original snapshot (ordered), swap(h,h) is a no-op. non-trivial = a swap of two different handles; "
+              "distinct = distinct program hash"),
+        assumptions=["stored definitions of deleted-not-collected entities are not observable and not compared"],
+        technique="rapidcheck histories + handle-exact metamorphic relation (relabeled snapshot, involution)",
+        level_text=("Metamorphic test: swap == relabeling of the complete observable state; swap twice == identity; "
+                    "pairs include adjacent, shared, first/last, deleted slots; any bottom-up subset."),
+        level_note="Bounded by program length and mesh size.",
+    ),
 }
 
 ENGINES = [
